@@ -200,7 +200,7 @@ func (b *tracedBackend) RenameNX(oldpath, newpath string) error {
 	return err
 }
 func (b *tracedBackend) ListAll() ([]string, error) { return b.inner.ListAll() }
-func (b *tracedBackend) Close() error                { return nil }
+func (b *tracedBackend) Close() error               { return nil }
 
 // ---------- the world: keys, rings, abstract view ----------
 
